@@ -318,8 +318,8 @@ class NPShim(types.ModuleType):
         return bincount(x, minlength=minlength)
 
     @staticmethod
-    def vectorize(f, *a, **k):
-        inner = _np.vectorize(f, *a, **k)
+    def vectorize(f, *a, **vkw):
+        inner = _np.vectorize(f, *a, **vkw)
 
         def g(x, *aa, **kk):
             xa = _np.asarray(x)
@@ -337,9 +337,24 @@ class NPShim(types.ModuleType):
                             o[idx] = out[idx][k]
                         outs.append(o)
                     return tuple(outs)
-                # numpy.vectorize would infer the dtype from the first result
-                if out.size and all(isinstance(v, (float, int, _np.floating, _np.integer)) and not isinstance(v, bool) for v in out.ravel()):
+                # numpy.vectorize infers the output dtype from the FIRST result: a number (or a symbolic real, which stands for a float) first
+                # makes a float array and every later result is converted with float() - an observable silently becomes its central value
+                def isnum(v):
+                    return isinstance(v, (float, int, _np.floating, _np.integer)) and not isinstance(v, bool)
+                if out.size and all(isnum(v) for v in out.ravel()):
                     return out.astype(type(out.ravel()[0]))
+                if out.size and (isnum(first) or isinstance(first, SV)) and not vkw.get('otypes'):
+                    for idx, v in _np.ndenumerate(out):
+                        if isnum(v) or isinstance(v, SV):
+                            continue
+                        if isinstance(v, (complex, _np.complexfloating)):
+                            raise TypeError("float() argument must be a string or a real number, not 'complex'")
+                        try:
+                            out[idx] = float(v)
+                        except Realize:
+                            if not hasattr(v, 'value'):
+                                raise
+                            out[idx] = v.value          # Obs.__float__ is float(self.value) (decided in C19 views); the symbolic value stands for it
                 return out
             return inner(x, *aa, **kk)
         return g
